@@ -6,7 +6,7 @@ import c02lib
 
 
 def run(chk):
-    proved = chk.prove()
+    proved = chk.prove(extra_targets=["theories/Hs/Abs12Run.vo"])
     cases = []
     found = False
     for test, tags in (("^TestVerifC17$", ["c02", "c17"]), ("^TestVerifC02$", ["c02"])):
